@@ -36,3 +36,12 @@
   (! (= (bal (burn b f d v) a e) (- (bal b a e) (ite (and (= a f) (= e d)) v 0))) :pattern ((bal (burn b f d v) a e)))))
 (assert (forall ((b Bank) (f Addr) (d String) (v Int) (e String))
   (! (= (supply (burn b f d v) e) (- (supply b e) (ite (= e d) v 0))) :pattern ((supply (burn b f d v) e)))))
+; decimal numerals (strconv / fmt %d). dec is uninterpreted; the ground instances the proofs need are given.
+(declare-fun dec (Int) String)             ; strconv.FormatUint/FormatInt(n, 10), fmt "%d"
+(declare-fun atoiOK (String) Bool)         ; strconv.ParseInt(s, 10, 64) succeeds (sign and leading zeros accepted)
+(declare-fun atoiVal (String) Int)
+(declare-fun atouOK (String) Bool)         ; strconv.ParseUint(s, 10, 64) succeeds (no sign; leading zeros accepted)
+(declare-fun atouVal (String) Int)
+(assert (and (= (dec 0) "0") (= (dec 1) "1") (= (dec 2) "2") (= (dec 3) "3") (= (dec 4) "4") (= (dec 5) "5") (= (dec 6) "6") (= (dec 7) "7") (= (dec 8) "8") (= (dec 9) "9")))
+(assert (forall ((n Int)) (! (=> (>= n 0) (and (atoiOK (dec n)) (= (atoiVal (dec n)) n) (atouOK (dec n)) (= (atouVal (dec n)) n))) :pattern ((dec n)))))
+(declare-fun isChannelID (String) Bool)    ; channeltypes.IsValidChannelID
